@@ -116,11 +116,31 @@ theorem enumerator_protocol (hash : K → Nat) (d : PDesc K V) (m : PMap K V) (s
   rw [hd]
   exact ⟨rfl, hp, (PMap.enumerate_once h.tab).1⟩
 
-/-- `Next` is defined exactly when `HasMoreElements` answers true -/
-theorem enumerator_hasMore_next (t : Table K V) (e : PEnum K V) : PEnum.hasMore t e = (PEnum.next t e).isSome := by
+/-- the protocol, all three ways of driving an enumerator:
+    * `Next` is defined exactly when `HasMoreElements` answers true;
+    * `Next` **without** a prior `HasMoreElements` is correct too — it runs the skip loop itself: `n` bare calls yield the
+      first `n` remaining elements, so `Size()` bare calls on a fresh enumerator yield the whole enumeration
+      (the loops of `IntSet.ToString`, `KeyArray`, `ValueArray`);
+    * `HasMoreElements` may be called any number of times between two `Next`s: it is idempotent on the enumerator's
+      state and does not change what `Next` returns. -/
+theorem enumerator_hasMore_next (t : Table K V) (e : PEnum K V) :
+    PEnum.hasMore t e = (PEnum.next t e).isSome ∧
+    (∀ n, PEnum.takeN t n e = (PEnum.remaining t e).take n) ∧
+    PEnum.advance t (PEnum.advance t e) = PEnum.advance t e ∧
+    PEnum.next t (PEnum.advance t e) = PEnum.next t e := by
+  refine ⟨?_, fun n => PEnum.takeN_eq t n e, PEnum.advance_idem t e, PEnum.next_after_hasMore t e⟩
   unfold PEnum.hasMore PEnum.next
   simp only
   cases hc : (PEnum.advance t e).entry <;> simp
+
+/-- `Size()` calls of `Next` with no `HasMoreElements` at all enumerate the map: same result as the HasMoreElements-driven loop -/
+theorem enumerator_size_driven (hash : K → Nat) (d : PDesc K V) (m : PMap K V) (s : PS K V) (h : PMap.Rel hash d m s) :
+    PEnum.takeN m.tab m.count m.tab.openEnum = m.tab.entries ∧
+    PEnum.takeN m.tab m.count m.tab.openEnum = PEnum.drain m.tab m.count m.tab.openEnum := by
+  have hp := PMap.entries_perm h
+  have hl : m.tab.entries.length = m.count := by rw [hp.length_eq, h.count]
+  have h1 := Table.takeN_open m.tab m.count hl
+  exact ⟨h1, by rw [h1, Table.drain_open m.tab m.count (by omega)]⟩
 
 /-- an enumerator in any state yields exactly what is left: the rest of the current chain, then the buckets below `index` -/
 theorem enumerator_remaining (t : Table K V) (e : PEnum K V) (fuel : Nat) (h : (PEnum.remaining t e).length ≤ fuel) :
